@@ -49,6 +49,10 @@ struct Bucket {
     latency: u64,
     frame: usize,
     last_served_listing: Option<(Vec<String>, bool)>,
+    /// zero-length data frames inside response bodies (legal in HTTP/2 and chunked transfer)
+    empty_frames: usize,
+    /// the informational counters of a listing page (KeyCount, MaxKeys) carry nonsense
+    bad_counts: bool,
     /// S3 may return fewer keys than max-keys and flag the page as truncated
     short_page: Option<usize>,
 }
@@ -60,7 +64,10 @@ impl Backend for Bucket {
             p.up_ms = core.tape.draw(self.latency + 1);
             p.down_ms = core.tape.draw(self.latency + 1);
         }
-        p.body = BodyPlan { cut_at: None, frame: self.frame, frame_delay_ms: if self.frame > 0 { 3 } else { 0 } };
+        p.body = BodyPlan { cut_at: None, frame: self.frame, frame_delay_ms: if self.frame > 0 { 3 } else { 0 }, empty_frame_every: self.empty_frames };
+        if self.empty_frames > 0 {
+            core.ctx.count("fault.zero_length_body_frame");
+        }
         p
     }
 
@@ -156,6 +163,11 @@ impl Backend for Bucket {
                 self.last_served_listing = Some((keys, truncated));
                 let pretty = self.fault == Fault::ExtraElements;
                 let mut xml = s3sim::list_xml(bucket_name, prefix, max, &objects, truncated, pretty);
+                if self.bad_counts {
+                    // fields the library has no use for: huge, negative and non-numeric values
+                    xml = xml.replacen(&format!("<KeyCount>{}</KeyCount>", objects.len()), "<KeyCount>9999999999999999999</KeyCount>", 1);
+                    xml = xml.replacen(&format!("<MaxKeys>{}</MaxKeys>", max), "<MaxKeys>-1</MaxKeys><KeyCount>18446744073709551615</KeyCount><KeyCount>many</KeyCount>", 1);
+                }
                 if pretty {
                     xml = xml.replace("</Contents>", "<Owner><ID>abc</ID><DisplayName>x &amp; y</DisplayName></Owner><ChecksumAlgorithm>CRC32</ChecksumAlgorithm></Contents>");
                     xml = xml.replace("</ListBucketResult>", "<CommonPrefixes><Prefix>zzz/</Prefix></CommonPrefixes><EncodingType>none</EncodingType></ListBucketResult>");
@@ -376,7 +388,7 @@ impl Check for C17 {
                "stub": ["reqwest client + TLS + TCP + S3 (in-process endpoint behind the reqwest::get seam)"]})
     }
     fn required_probes(&self, _tier: Tier) -> Vec<&'static str> {
-        vec!["call.list_files", "call.download_file", "call.list_chunks", "call.download_chunk", "truncated_archive_listing", "key_with_xml_special", "key_with_non_ascii", "key_with_slash_in_name", "not_found_download", "fault.status", "fault.status_long_body", "fault.send_error", "fault.body_cut", "fault.xml_cut", "fault.bad_size", "fault.bad_last_modified", "fault.extra_elements", "fault.bad_last_modified_header", "listing_1000", "listing_1001", "short_truncated_page", "folder_marker_object", "max_keys_beyond_u32", "nested_realtime_key", "key_longer_than_256_bytes"]
+        vec!["call.list_files", "call.download_file", "call.list_chunks", "call.download_chunk", "truncated_archive_listing", "key_with_xml_special", "key_with_non_ascii", "key_with_slash_in_name", "not_found_download", "fault.status", "fault.status_long_body", "fault.send_error", "fault.body_cut", "fault.xml_cut", "fault.bad_size", "fault.bad_last_modified", "fault.extra_elements", "fault.bad_last_modified_header", "listing_1000", "listing_1001", "short_truncated_page", "folder_marker_object", "max_keys_beyond_u32", "nested_realtime_key", "key_longer_than_256_bytes", "fault.zero_length_body_frame", "fault.nonsense_keycount"]
     }
     fn budget_s(&self, tier: Tier) -> u64 {
         match tier {
@@ -483,6 +495,11 @@ impl Check for C17 {
             realtime_map.insert(extra, Obj { data: vec![0, 0, 0, 0, b'B', b'Z'], stamp_ms: s3sim::EPOCH_MS, fraction: true, listed_size: "6".into() });
         }
         let n_calls = if large { 2 } else { 1 + tape.draw(6) as usize };
+        let empty_frames = [0usize, 0, 0, 1, 2][tape.draw(5) as usize];
+        let bad_counts = tape.draw(8) == 7;
+        if bad_counts {
+            ctx.count("fault.nonsense_keycount");
+        }
         let latency = [0u64, 0, 30, 900][tape.draw(4) as usize];
         let frame = [0usize, 0, 1000, 13][tape.draw(4) as usize];
         let ref_archive = archive_map.clone();
@@ -533,7 +550,7 @@ impl Check for C17 {
         let results = s3sim::with_world(
             tape,
             ctx,
-            |_core| Bucket { archive: archive_map, realtime: realtime_map, fault: Fault::None, latency, frame, last_served_listing: None, short_page: None },
+            |_core| Bucket { archive: archive_map, realtime: realtime_map, fault: Fault::None, latency, frame, last_served_listing: None, short_page: None, empty_frames, bad_counts },
             |world, rt| {
                 rt.block_on(async {
                     let mut out = Vec::new();
